@@ -21,6 +21,7 @@ import Hv.Patch.SpecRefine
 import Hv.Patch.Target
 import Hv.Patch.PatchFields
 import Hv.Patch.ErrorClassOps
+import Hv.Patch.Wire
 
 namespace Hv.C13
 open Hv.Patch
@@ -855,6 +856,13 @@ structure Facts where
   stMsgpack : Option Nat
   stNonstr : Option Nat
   seedDefault : Option Nat
+  /-- Go const blocks of `OpKind` / `CondOp` in iota order; the proto enums by number (hydraide.pb.go);
+      how gateway_patch.go converts the wire number -/
+  opOrder : Option (List OpKind)
+  condOrder : Option (List CondOp)
+  protoOps : Option (List OpKind)
+  protoConds : Option (List CondOp)
+  wireConv : WireConv
   deriving Repr
 
 def cfgOf (f : Facts) : Cfg :=
@@ -866,6 +874,9 @@ def smapOf (f : Facts) : StatusMap :=
 
 def pfOf (f : Facts) : PfCfg :=
   ⟨cfgOf f, ⟨UInt8.ofNat (f.magic0.getD 0), UInt8.ofNat (f.magic1.getD 0)⟩, smapOf f, [UInt8.ofNat (f.seedDefault.getD 0)]⟩
+
+def wireOf (f : Facts) : WireCfg :=
+  ⟨f.opOrder.getD [], f.condOrder.getD [], f.protoOps.getD [], f.protoConds.getD [], f.wireConv⟩
 
 /-- the PatchFields layer: documented status mapping, and reply / stored body = Spec -/
 def PFHolds (pc : PfCfg) : Prop :=
@@ -889,23 +900,28 @@ def PFHolds (pc : PfCfg) : Prop :=
       (patchFieldsT pc tr ops cond create seed m).status = documentedMap.of e)
 
 /-- the property on the model: the patch layer and the PatchFields layer -/
-def Full (f : Facts) : Prop := Holds (cfgOf f) ∧ PFHolds (pfOf f)
+def Full (f : Facts) : Prop := Holds (cfgOf f) ∧ PFHolds (pfOf f) ∧ WireHolds (wireOf f)
 
 def hasUnknown (f : Facts) : Bool :=
   f.validatesValues == .unknown || f.nanCompare == .unknown || f.incFixint == .unknown ||
   f.dupKey == .unknown || f.removeValCompare == .unknown || f.magic0.isNone || f.magic1.isNone ||
   f.stCond.isNone || f.stType.isNone || f.stPath.isNone || f.stOp.isNone || f.stMsgpack.isNone ||
-  f.stNonstr.isNone || f.seedDefault.isNone
+  f.stNonstr.isNone || f.seedDefault.isNone ||
+  f.opOrder.isNone || f.condOrder.isNone || f.protoOps.isNone || f.protoConds.isNone ||
+  f.wireConv == .unknown || !(wireOf f).sized
 
 def allGood (f : Facts) : Bool :=
   f.validatesValues == .yes && f.nanCompare == .neverEqual && f.removeValCompare == .canonical &&
-  smapOf f == documentedMap
+  smapOf f == documentedMap && (wireOf f).agrees
 
 def findings (f : Facts) : List String :=
   (if f.validatesValues == .no then ["C13-unvalidated-op-value"] else []) ++
   (if f.nanCompare == .equal then ["C13-nan-compares-equal"] else []) ++
   (if f.removeValCompare == .scalarBytes then ["C13-removeval-skips-containers"] else []) ++
-  (if smapOf f == documentedMap then [] else ["C13-status-mapping"])
+  (if smapOf f == documentedMap then [] else ["C13-status-mapping"]) ++
+  (if (wireOf f).agrees then []
+   else if f.wireConv == .cast && f.opOrder == f.protoOps && f.condOrder == f.protoConds then ["C13-wire-enum-truncated"]
+   else ["C13-wire-enum-misaligned"])
 
 def classify (f : Facts) : Verdict :=
   if hasUnknown f then .undetermined "a msgpackpatch / swamp_patch.go pattern was not recognised"
@@ -921,26 +937,43 @@ theorem classify_sound (f : Facts) : (classify f).Sound (Full f) (HoldsExcept (c
     · -- every fact has its repaired / documented value
       rename_i hg
       simp only [allGood, Bool.and_eq_true, beq_iff_eq] at hg
-      obtain ⟨⟨⟨h1, h2⟩, h3⟩, h4⟩ := hg
+      obtain ⟨⟨⟨⟨h1, h2⟩, h3⟩, h4⟩, h5⟩ := hg
       have hv : (cfgOf f).validatesValues = true := by simp [cfgOf, h1, Tri.isYes]
       have hc : (cfgOf f).rmvalCanon = true := by simp [cfgOf, h3]
       have hn : (cfgOf f).nan = .neverEqual := by simp [cfgOf, h2]
-      exact ⟨holds_of_good hv hn hc, h4, fun tr ops cond create seed m =>
-        patchFields_refines (pfOf f) hv hc h4 tr ops cond create seed m⟩
+      have hwc : (wireOf f).conv ≠ .unknown := by
+        intro hx
+        apply hu
+        have : f.wireConv = .unknown := hx
+        simp [hasUnknown, this]
+      have hws : (wireOf f).sized = true := by
+        cases hsz : (wireOf f).sized with
+        | true => rfl
+        | false => exact absurd (by simp [hasUnknown, hsz]) hu
+      exact ⟨holds_of_good hv hn hc, ⟨h4, fun tr ops cond create seed m =>
+        patchFields_refines (pfOf f) hv hc h4 tr ops cond create seed m⟩, WireCfg.holds_of_agrees hwc hws h5⟩
     · rename_i hb
       refine ⟨fun hfull => ?_, holds_except _⟩
-      obtain ⟨hH, hP⟩ := hfull
-      obtain ⟨vv, nc, fx, dk, rv, m0, m1, s1, s2, s3, s4, s5, s6, sd⟩ := f
-      by_cases hs : smapOf ⟨vv, nc, fx, dk, rv, m0, m1, s1, s2, s3, s4, s5, s6, sd⟩ = documentedMap
-      · cases vv <;> cases nc <;> cases rv <;> simp [hasUnknown] at hu
-        · exact not_nanEqualNothing_of_equal true fx _ hH.2.2.1
-        · exact not_nanEqualNothing_of_equal true fx _ hH.2.2.1
-        · exact not_refinesSpec_of_scalar true .neverEqual fx hH.2.2.2.1
-        · exact hb (by simp [allGood, hs])
-        · exact not_successWf_of_unvalidated .equal fx _ hH.2.1
-        · exact not_successWf_of_unvalidated .equal fx _ hH.2.1
-        · exact not_successWf_of_unvalidated .neverEqual fx _ hH.2.1
-        · exact not_successWf_of_unvalidated .neverEqual fx _ hH.2.1
-      · exact hs hP.1
+      obtain ⟨hH, hP, hW⟩ := hfull
+      cases hwa : (wireOf f).agrees with
+      | false => exact WireCfg.not_holds_of_disagree hwa hW
+      | true =>
+        obtain ⟨vv, nc, fx, dk, rv, m0, m1, s1, s2, s3, s4, s5, s6, sd, oo, co, po, pc, wc⟩ := f
+        by_cases hs : smapOf ⟨vv, nc, fx, dk, rv, m0, m1, s1, s2, s3, s4, s5, s6, sd, oo, co, po, pc, wc⟩ = documentedMap
+        · cases vv <;> cases nc <;> cases rv <;> simp [hasUnknown] at hu
+          · exact not_nanEqualNothing_of_equal true fx _ hH.2.2.1
+          · exact not_nanEqualNothing_of_equal true fx _ hH.2.2.1
+          · exact not_refinesSpec_of_scalar true .neverEqual fx hH.2.2.2.1
+          · exact hb (by simp [allGood, hs, hwa])
+          · exact not_successWf_of_unvalidated .equal fx _ hH.2.1
+          · exact not_successWf_of_unvalidated .equal fx _ hH.2.1
+          · exact not_successWf_of_unvalidated .neverEqual fx _ hH.2.1
+          · exact not_successWf_of_unvalidated .neverEqual fx _ hH.2.1
+        · exact hs hP.1
+
+/-- the wire enums mean the documented operators (re-exported for the verdict) -/
+theorem wire_cond_agrees {w : WireCfg} (htab : w.condOrder = w.protoConds) (hconv : w.conv = .castChecked)
+    (hlen : w.protoConds.length ≤ 256) (n : Int) : w.codeCond n = w.docCond n :=
+  Hv.Patch.wire_cond_agrees htab hconv hlen n
 
 end Hv.C13
